@@ -28,6 +28,13 @@ Proof. reflexivity. Qed.
 Lemma gen_default_max_zero : gen_default_max_retries = 0.
 Proof. reflexivity. Qed.
 
+(* task.py distribute_calls (sync branch): every element of a parallelized list is its own fresh invocation *)
+Lemma gen_group_own : gen_sync_group_own_invocations = true.
+Proof. reflexivity. Qed.
+
+Lemma shared_never : forall seen p, shared_sync seen p = false.
+Proof. intros seen p. unfold shared_sync. rewrite gen_group_own. reflexivity. Qed.
+
 (* RetryError (kind 0) is retriable whatever retry_for says; another kind exactly when listed *)
 Lemma gen_retriable_retryerror : forall rf, gen_retriable rf 0 = true.
 Proof.
@@ -169,22 +176,23 @@ Lemma sync_stmts_eq : forall s r,
   | o => (o, snd (sync_stmt s))
   end.
 Proof. reflexivity. Qed.
-Lemma sync_group_eq : forall p r,
-  sync_group (PCons p r) =
+Lemma sync_group_eq : forall seen p r,
+  sync_group seen (PCons p r) =
   match out (sync_prog p) with
-  | Val v => (addv v (fst (sync_group r)), log (sync_prog p) ++ snd (sync_group r))
-  | o => (o, log (sync_prog p))
+  | Val v => (addv v (fst (sync_group (pid p :: seen) r)),
+              (if shared_sync seen p then [] else log (sync_prog p)) ++ snd (sync_group (pid p :: seen) r))
+  | o => (o, if shared_sync seen p then [] else log (sync_prog p))
   end.
 Proof. reflexivity. Qed.
 Lemma sync_call_eq : forall p, sync_stmt (SCall p) = (out (sync_prog p), log (sync_prog p)).
 Proof. reflexivity. Qed.
-Lemma sync_group_stmt_eq : forall g, sync_stmt (SGroup g) = sync_group g.
+Lemma sync_group_stmt_eq : forall g, sync_stmt (SGroup g) = sync_group [] g.
 Proof. reflexivity. Qed.
 Lemma sync_direct_eq : forall p, sync_stmt (SDirect p) =
   if gen_direct_returns_result then (out (sync_prog p), log (sync_prog p)) else (Exc type_error, []).
 Proof. reflexivity. Qed.
 Lemma sync_dpar_eq : forall g, sync_stmt (SDirectPar g) =
-  if gen_direct_par_aggregates then sync_group g else (Exc type_error, []).
+  if gen_direct_par_aggregates then sync_group [] g else (Exc type_error, []).
 Proof. reflexivity. Qed.
 
 Lemma dist_prog_eq : forall tr h b,
@@ -235,7 +243,7 @@ Section Equiv.
     (forall p, req_prog p = true -> dist_prog tr p = sync_prog p) /\
     (forall b, req_stmts b = true -> dist_stmts tr b = sync_stmts b) /\
     (forall s, req_stmt s = true -> dist_stmt tr s = sync_stmt s) /\
-    (forall g, req_group g = true -> dist_group tr g = sync_group g).
+    (forall g, req_group g = true -> forall seen, dist_group tr g = sync_group seen g).
   Proof.
     apply prog_mutind.
     - (* Node *) intros h b IHb Hreq. cbn [req_prog] in Hreq.
@@ -248,17 +256,17 @@ Section Equiv.
       rewrite dist_call_eq, sync_call_eq, (IHp Hreq), read_id. reflexivity.
     - (* SFire *) intros p _ Hreq. cbn [req_stmt] in Hreq. discriminate.
     - (* SGroup *) intros g IHg Hreq. cbn [req_stmt] in Hreq.
-      rewrite dist_group_stmt_eq, sync_group_stmt_eq. exact (IHg Hreq).
+      rewrite dist_group_stmt_eq, sync_group_stmt_eq. exact (IHg Hreq []).
     - (* SDirect *) intros p IHp Hreq. cbn [req_stmt] in Hreq.
       rewrite dist_direct_eq, sync_direct_eq, gen_direct_result, (IHp Hreq), read_id. reflexivity.
     - (* SDirectPar *) intros g IHg Hreq. cbn [req_stmt] in Hreq.
-      rewrite dist_dpar_eq, sync_dpar_eq, gen_direct_aggregates, (IHg Hreq).
-      destruct (sync_group g); reflexivity.
-    - (* PNil *) intros _. reflexivity.
-    - (* PCons *) intros p IHp g IHg Hreq. cbn [req_group] in Hreq.
+      rewrite dist_dpar_eq, sync_dpar_eq, gen_direct_aggregates, (IHg Hreq []).
+      destruct (sync_group [] g); reflexivity.
+    - (* PNil *) intros _ seen. reflexivity.
+    - (* PCons *) intros p IHp g IHg Hreq seen. cbn [req_group] in Hreq.
       apply andb_true_iff in Hreq. destruct Hreq as [Hreq Hg].
       apply andb_true_iff in Hreq. destruct Hreq as [Hp Hlast].
-      rewrite dist_group_eq, sync_group_eq, (IHp Hp), (IHg Hg), read_id.
+      rewrite dist_group_eq, sync_group_eq, shared_never, (IHp Hp), (IHg Hg (pid p :: seen)), read_id.
       unfold succeeds in Hlast.
       destruct (out (sync_prog p)) as [v|e|] eqn:Eo.
       + reflexivity.
@@ -290,8 +298,45 @@ Proof.
   destruct (dist_group tr g); reflexivity.
 Qed.
 
+(* ---------- repeated members of a group ---------- *)
+Lemma count_app : forall i a b, count i (a ++ b) = count i a + count i b.
+Proof. intros i a b. unfold count. rewrite filter_app, app_length. reflexivity. Qed.
+
+(* the same argument set twice in one parallelized list: the body runs for each element, in both modes *)
+Lemma repeated_member_sync : forall p i, succeeds p = true ->
+  count i (snd (sync_stmt (SGroup (PCons p (PCons p PNil))))) = 2 * count i (log (sync_prog p)).
+Proof.
+  intros p i Hs. unfold succeeds in Hs.
+  rewrite sync_group_stmt_eq, sync_group_eq, shared_never.
+  destruct (out (sync_prog p)) as [v|e|] eqn:Eo; try discriminate.
+  rewrite sync_group_eq, shared_never, Eo. cbn [sync_group snd fst].
+  rewrite app_nil_r, count_app. lia.
+Qed.
+
+Lemma repeated_member_dist : forall tr p i,
+  count i (snd (dist_stmt tr (SGroup (PCons p (PCons p PNil))))) = 2 * count i (log (dist_prog tr p)).
+Proof.
+  intros tr p i. rewrite dist_group_stmt_eq, !dist_group_eq. cbn [dist_group snd].
+  rewrite app_nil_r, count_app. lia.
+Qed.
+
 (* ---------- refutations (faithful model, concrete witnesses) ---------- *)
 Definition id_tr (e : exn) : exn := e.
+
+(* the generated fact is load-bearing: were the sync branch to share the invocation of a repeated element,
+   a group [p; p] would run p's body once in sync mode and twice distributed *)
+Definition g_repeated : stmt := SGroup (PCons (leaf 2 0 [] [] AOk) (PCons (leaf 2 0 [] [] AOk) PNil)).
+
+Lemma sharing_breaks_counts :
+  gen_sync_group_own_invocations = false ->
+  fst (sync_stmt g_repeated) = fst (dist_stmt id_tr g_repeated) /  count 2 (snd (sync_stmt g_repeated)) = 1 /\ count 2 (snd (dist_stmt id_tr g_repeated)) = 2.
+Proof.
+  intros H. unfold g_repeated.
+  rewrite sync_group_stmt_eq, sync_group_eq. unfold shared_sync. rewrite H.
+  assert (Ho : out (sync_prog (leaf 2 0 [] [] AOk)) = Val 1) by (vm_compute; reflexivity).
+  rewrite Ho, sync_group_eq. unfold shared_sync. rewrite H, Ho.
+  vm_compute. repeat split; reflexivity.
+Qed.
 
 Definition p_fire : prog :=
   Node (mkH 1 0 [] 1 [] AOk) (SCons (SFire (leaf 2 0 [] [] AOk)) SNil).
